@@ -341,8 +341,9 @@ theorem TextCR.trans {a b c : List UInt8} (h1 : TextCR a b) (h2 : TextCR b c) : 
   have ha := h1.exact (by rw [hb]; exact hc)
   exact ha.trans hb
 
-theorem scanCommentXG_ok (fuel : Nat) (st : St) (hi : Inv src st) (hf : src.size - st.off < fuel)
-    (h1 : 1 ≤ st.off) : CommentOK src st (scanCommentXG .xgo src fuel st) := by
+theorem scanCommentXG_ok' (fuel : Nat) (st : St) (hi : Inv src st) (hf : src.size - st.off < fuel)
+    (h1 : 1 ≤ st.off) : CommentOK src st (scanCommentXG .xgo src fuel st) ∧
+      (scanCommentXG .xgo src fuel st).st.off = (commentLoops .xgo src fuel st).st.off := by
   have hsz := hi.off_le_size
   obtain ⟨ha, hcnt, hterm⟩ := commentLoops_ok fuel st hi hf
   unfold scanCommentXG
@@ -395,9 +396,18 @@ theorem scanCommentXG_ok (fuel : Nat) (st : St) (hi : Inv src st) (hf : src.size
   have hadv1 : Adv src st st1 :=
     ⟨ha.inv.congr hsame.ch hsame.off hsame.rdOff, by rw [hsame.off]; exact ha.off_le, hsame.fail.trans ha.fail_eq,
      hsame.semi.trans ha.semi, hsame.paren.trans ha.paren, hsame.unit.trans ha.unit, hsame.nl.trans ha.nl⟩
-  refine ⟨by rw [hfin.1]; exact hadv1, ?_⟩
+  refine ⟨⟨by rw [hfin.1]; exact hadv1, ?_⟩, by rw [hfin.1, hsame.off]⟩
   rw [hfin.1, hsame.off]
   exact hfin.2.trans hs1.1
+
+theorem scanCommentXG_ok (fuel : Nat) (st : St) (hi : Inv src st) (hf : src.size - st.off < fuel)
+    (h1 : 1 ≤ st.off) : CommentOK src st (scanCommentXG .xgo src fuel st) :=
+  (scanCommentXG_ok' fuel st hi hf h1).1
+
+/-- the offset behind an xgo comment is the one the comment loop reached -/
+theorem scanCommentXG_off (fuel : Nat) (st : St) (hi : Inv src st) (hf : src.size - st.off < fuel)
+    (h1 : 1 ≤ st.off) : (scanCommentXG .xgo src fuel st).st.off = (commentLoops .xgo src fuel st).st.off :=
+  (scanCommentXG_ok' fuel st hi hf h1).2
 
 
 theorem scanCommentTpl_ok (fuel : Nat) (st : St) (hi : Inv src st) (hf : src.size - st.off < fuel)
